@@ -2,6 +2,7 @@
 from . import e11
 
 CRATES = {"gluon_vm", "gluon_check", "gluon_base", "gluon_parser"}
+THOROUGH_CONFIGS = ["default", "nodefault"]  # thorough also analyses the default-feature and the no-default-features builds
 
 
 def run(fb, rep, tier, cfg):
